@@ -73,13 +73,37 @@ def run(ctx):
     if not sh.violated:
         raise vlib.Inconclusive("the shared-budget variant of Faults.tla was expected to be refuted (NeverUnwatched)")
     res.extra["shared_budget_variant"] = "refuted (NeverUnwatched): slow hops within their limits, then a silent peer nobody watches"
-    evs, _, _ = run_harness(ctx, "jtp", "TestVerifFaults", {"stride": 7 if q else 1, "hops": 1 if q else 2}, timeout=2400)
-    shared, _, _ = run_harness(ctx, "client", "TestVerifFaultsShared", {}, timeout=900)
-    evs += [e for e in shared if e["ev"] == "fault"]
+    evs, frc, ftxt = run_harness(ctx, "jtp", "TestVerifFaults", {"stride": 7 if q else 1, "hops": 1 if q else 2}, timeout=2400, allow_fail=True)
+    if frc != 0 and not any(e["ev"] == "aborted" for e in evs):
+        raise vlib.Inconclusive("fault harness failed (rc=%d):\n%s" % (frc, ftxt[-2500:]))
+    res.extra["fault_run_given_up_after_fetches_that_did_not_return"] = any(e["ev"] == "aborted" for e in evs)
+    evs = [e for e in evs if e["ev"] == "fault"]
+    lost = any(e["outcome"] == "timeout" for e in evs)
+    if not lost:
+        # (where single fetches already fail to come back, the driver of shared fetches cannot be expected to end: the fault run decides)
+        shared, _, _ = run_harness(ctx, "client", "TestVerifFaultsShared", {}, timeout=900)
+        evs += [e for e in shared if e["ev"] == "fault"]
     nav, nrc, ntxt = run_harness(ctx, "ui", "TestVerifFaultNav", {}, timeout=900, allow_fail=True, env={"VERIF_WORLD": "w1"})
     if nrc != 0 and not any(e["ev"] == "fault" for e in nav):
         raise vlib.Inconclusive("fault/navigation harness failed:\n" + ntxt[-1500:])
     evs += [e for e in nav if e["ev"] == "fault"]
+    # a page that holds exactly what is asked for and whose next page cannot be loaded: the entries and then the error item, in this
+    # request (the listing driver's scene, judged by ListingOK: an item at every position, none missing)
+    from checks import c09
+    pevs, prc, ptxt = run_harness(ctx, "pub", "TestVerifListing", {"sessions": [], "random": 0, "outbox_classes": c09.OUTBOX, "reply_classes": c09.REPLIES},
+                                  timeout=900, allow_fail=True, name="exact-page")
+    plist = [e for e in pevs if e["ev"] == "listing"]
+    if prc != 0 or len(plist) < 3:
+        raise vlib.Inconclusive("exact-page driver failed:\n" + ptxt[-1500:])
+    pbad, _ = vlib.judge(ctx, "T_Prov", "T_Prov.cfg", pevs, name="T_Prov_exact_page")
+    res.extra["pages_of_exactly_the_requested_size_with_a_dead_next_link"] = len(plist)
+    for b in pbad:
+        e = pevs[b["line"] - 1]
+        if e["ev"] != "listing":
+            continue
+        path = vlib.save_replay(ctx.pid, "page-l%d" % b["line"], e)
+        res.violations.append(({"monitor": "ListingOK", "why": b["why"]}, path,
+                               "a page of %d entries whose next page cannot be loaded, asked for %d: shown %s (%s)" % (len(e["classes"]) - 1, len(e["classes"]) - 1, e["shown"], b["why"])))
     bad, r2 = vlib.judge(ctx, "T_Faults", "T_Faults.cfg", evs)
     res.traces = len(evs)
     for e in evs:
